@@ -36,6 +36,7 @@ def register(db):
             ("qualified", "implies(tag_or_uri and tag, result == clark_build(tag_or_uri, tag))"),
             ("unqualified", "implies(not tag_or_uri, result == tag)"),
             ("uri-only", "implies(tag_or_uri and not tag, result == tag_or_uri)"),
+            ("returns-only-for-a-non-empty-name", "bool(tag_or_uri) or bool(tag)"),
         ],
         raises={"ValueError": "not tag_or_uri and not tag"},
         returns="str",
@@ -127,6 +128,7 @@ def register(db):
         "implies(None in result, (None in ns_map and result[None] == ns_map[None]) or ('' in ns_map and result[None] == ns_map['']))",
         "same_dict(ns_map, old(ns_map))",
         USABLE.format(m="result"),
+        "implies(None in ns_map and ns_map[None] != '' and '' not in ns_map and pos_of(ns_map, None) < _i, None in result and result[None] == ns_map[None])",
     ]
     db.add(Contract(
         "xsdata.utils.namespaces:clean_prefixes",
@@ -138,6 +140,9 @@ def register(db):
             ("default-namespace-comes-from-the-user-map", "implies(None in result, (None in ns_map and result[None] == ns_map[None]) or ('' in ns_map and result[None] == ns_map['']))"),
             ("default-dropped-when-its-uri-also-has-a-prefix", "implies(None in result, not exists('str', lambda k: k != '' and k in result and result[k] == result[None]))"),
             ("user-map-untouched", "same_dict(ns_map, old(ns_map)) and not (result is ns_map)"),
+            ("default-namespace-kept-unless-a-prefix-has-its-uri",
+             "implies(None in ns_map and ns_map[None] != '' and '' not in ns_map and not exists('str', lambda k: k != '' and k in result and result[k] == ns_map[None]), "
+             "None in result and result[None] == ns_map[None])"),
             # Namespaces in XML 1.0: a prefix is an NCName, 'xmlns' can not be declared, 'xml' is bound to one URI
             ("every-prefix-is-usable-in-a-document", USABLE.format(m="result")),
         ],
